@@ -1,8 +1,100 @@
-(* C15 — property theorems only. *)
+(* C15 — property theorems only.  Each is closed by `exact <lemma>` and followed by Print Assumptions. *)
 From Coq Require Import String List NArith ZArith Arith Bool.
-From Verif.C15 Require Import Model Spec Proofs.
+From Verif.C15 Require Import Model Spec Proofs ProofsForeign ProofsNoRewrite ProofsConv ProofsConv2 ProofsHist.
 Import ListNotations.
 
-Theorem c15_placeholder_get_put : forall (k : string) (v : list line) m, get k (put k v m) = Some v.
-Proof. exact (@get_put_same (list line)). Qed.
-Print Assumptions c15_placeholder_get_put.
+(* Every rule and chain not owned by Felix is unchanged, including order.  For ANY Table state that keeps
+   the (history-stable) invariant [finv] - whatever its caches say, i.e. also for stale read-backs -, ANY
+   kernel table, ANY injected save/restore failures and ANY edits racing between save and restore: after
+   Apply() (successful or panicking) every chain that Felix does not own exists iff it existed, and its
+   foreign rules (lines without a Felix hash) are the same list, in the same order, as in the kernel the
+   racing edits alone would have produced.  Only lines carrying a Felix hash are added/removed there.
+   The invariant is kept by Apply itself. *)
+Theorem c15_foreign_untouched : forall cf dall fs t k,
+  finv cf t ->
+  finv cf (ao_table (apply cf dall fs t k)) /\
+  exists n, forall c, owned cf c = false ->
+    omf (get c (ao_kernel (apply cf dall fs t k))) = omf (get c (apply_edits k (racing n fs))).
+Proof. exact apply_foreign_untouched. Qed.
+Print Assumptions c15_foreign_untouched.
+
+(* A fresh Table (restart) satisfies the invariant. *)
+Theorem c15_fresh_table_invariant : forall cf, finv cf (new_table cf).
+Proof. exact new_table_finv. Qed.
+Print Assumptions c15_fresh_table_invariant.
+
+(* Chains whose content did not change are not rewritten: an owned chain whose cached hashes equal the
+   wanted hashes, and a kernel chain whose cached hashes equal the expected arrangement of hook rules,
+   do not occur in the restore input at all (even if marked dirty). *)
+Theorem c15_no_rewrite_if_unchanged : forall cf t cs c ch,
+  apply_cmds cf t = Some cs ->
+  owned cf c = true ->
+  (forall c', In c' (t_dirtyIA t) -> owned cf c' = false) ->
+  desired t c = Some ch ->
+  get c (t_dp t) = Some (hashes_of (ch_rules ch)) ->
+  ~ In c (map fst cs).
+Proof. exact no_rewrite_owned. Qed.
+Print Assumptions c15_no_rewrite_if_unchanged.
+
+Theorem c15_no_rewrite_if_unchanged_hooks : forall cf t cs c,
+  apply_cmds cf t = Some cs ->
+  owned cf c = false ->
+  (forall c', In c' (t_dirty t) -> owned cf c' = true) ->
+  ia_in_sync cf t c = true ->
+  ~ In c (map fst cs).
+Proof. exact no_rewrite_hooks. Qed.
+Print Assumptions c15_no_rewrite_if_unchanged_hooks.
+
+(* Convergence of one restore transaction (PARTIAL as a statement about Apply: see below).  For ANY kernel
+   table k and ANY Table state whose caches are a read-back of k ([uhyp]: caches accurate, no forged
+   hashes, dirty sets duplicate-free and on the right kind of chain, every chain the read-back did NOT
+   mark dirty already at its target): if the restore input computed by applyUpdates is accepted, then
+   EVERY chain of the resulting kernel is at its target [tgt]: each Felix-owned chain holds exactly the
+   wanted rules in order, or is gone if it is not wanted (stale chains of an earlier Felix included);
+   each other chain holds its foreign rules unchanged and in order with Felix's hook rules at the
+   configured position (insert mode: hooks ++ foreign ++ appends; append mode: foreign ++ hooks ++
+   appends) and every stale / old-hash / old-insert Felix rule removed.  Holds for both delete-by-value
+   semantics (first match = iptables, all matches = MockDataplane).
+   Missing for the full c15_converges over Apply(): the proof that loadDataplaneState establishes the
+   "not marked dirty => already at target" part of [uhyp] from the Table invariant (cache of a non-dirty
+   chain = hashes of its wanted rules), and that invariant's preservation by the API calls. *)
+Theorem c15_converges_partial : forall cf dall t k cs k',
+  uhyp cf t k -> apply_cmds cf t = Some cs -> exec dall k cs = Some k' ->
+  forall c, get c k' = tgt cf t k c.
+Proof. exact update_converges. Qed.
+Print Assumptions c15_converges_partial.
+
+(* The positional delta at the heart of it: from ANY chain content L (stale rules, foreign lines, current
+   rules at wrong positions), the -R / -D / -A lines computed from L's hash list and the wanted rules ds
+   leave exactly ds, provided equal hash implies equal line. *)
+Theorem c15_positional_delta : forall dall c L pre ds,
+  (forall l d, In l L -> In d ds -> lh l = lh d -> l = d) ->
+  run_chain dall (Some (pre ++ L)) (map snd (delta c (length pre) (length pre + length ds) (map lh L) ds))
+  = Some (Some (pre ++ ds)).
+Proof. exact delta_run. Qed.
+Print Assumptions c15_positional_delta.
+
+(* Any history (PARTIAL): through every sequence of Apply() with arbitrary injected failures and racing
+   edits, timer invalidations, out-of-band edits, panics and restarts (= fresh Table over the same kernel)
+   the invariant needed by c15_foreign_untouched is kept, so that theorem applies to every Apply of the
+   history.  Its preservation by the four API calls (which needs the incref/decref recursion: dirty marks
+   only on Felix-owned names when jump targets are Felix-owned) is a hypothesis ([api_keeps]), not proved. *)
+Theorem c15_any_history_partial : forall cf dall ops s,
+  Forall (api_keeps cf) ops -> finv cf (m_table s) -> finv cf (m_table (final cf dall s ops)).
+Proof. exact history_finv. Qed.
+Print Assumptions c15_any_history_partial.
+
+(* Non-vacuity: a kernel with a foreign rule, an old-insert rule and a stale hashed rule in FORWARD, a stale
+   chain cali-old, and a wanted chain cali-a present with a wrong first rule and a surplus rule; one Apply
+   with a failing first restore converges and leaves the foreign rule alone. *)
+Example c15_example :
+  let cf := {| cf_prefixes := ["cali-"%string]; cf_append := false; cf_kchains := ["FORWARD"%string]; cf_fix := false |} in
+  let k0 : kernel := [("FORWARD"%string, [L 0 1; L 1 2; L 9 3]); ("cali-old"%string, [L 9 4]);
+                      ("cali-a"%string, [L 9 5; L 11 11; L 0 6])] in
+  let ops := [OpUpdate "cali-a"%string (CH [R 10 10 None; R 11 11 None] false);
+              OpInsert "FORWARD"%string [R 12 12 (Some "cali-a"%string)];
+              OpApply (FS [] [RF [] true])] in
+  map (fun o => (o_result o, get "FORWARD"%string (o_kernel o), get "cali-a"%string (o_kernel o), get "cali-old"%string (o_kernel o)))
+      (run cf false (init cf k0) ops)
+  = [(Success, Some [L 12 12; L 0 1], Some [L 10 10; L 11 11], None)].
+Proof. vm_compute. reflexivity. Qed.
